@@ -12,6 +12,7 @@ RULE = ('one record per decrypt attempt (one-shot and incremental with 2 partiti
 ASSUMPTIONS = ['AEAD model of C06']
 FLOORS = {'evaluations': 4000, 'distinct': 600, 'coverage': {'accept': 12, 'reject': 3000}}
 THOROUGH_ROUNDS = 100   # thorough tier: generator passes with derived seeds (runner.gen_rounds)
+EXTRA_CFGS = ['f32']   # the workload is also executed by the force-32bits build of the library; results must not change (runner.standard_check)
 
 
 def dec_lines(rng, rounds, key, nonce, aad, ct, tag, kind):
